@@ -41,6 +41,8 @@ SCENARIOS = {
     'zero': dict(cd=[0.0, 0.0, 0.0], pmd=[0.0, 0.0, 0.0], pdl=[0.0, 0.0, 0.0]),
     'cd_outside': dict(cd=[2000.0, 18000.1, 100.0], pmd=[1.0, 1.0, 1.0], pdl=[0.1, 0.1, 0.1]),
     'pdl_outside': dict(cd=[2000.0, 100.0, 100.0], pmd=[1.0, 1.0, 1.0], pdl=[0.1, 0.1, 4.5]),
+    # accumulated dispersion BELOW the lowest boundary of the table (negative-dispersion line): outside as well
+    'cd_below': dict(cd=[2000.0, -0.5, 100.0], pmd=[1.0, 1.0, 1.0], pdl=[0.1, 0.1, 0.1]),
 }
 
 
@@ -293,6 +295,54 @@ def h_auto_mode(ctx, spacing, scenario):
                   and req.bit_rate == dict((m[0], m[2]) for m in MODES)[expected])
 
 
+def h_auto_mode_own_tx_osnr(ctx):
+    """modes of one baud rate with DIFFERENT transmitter OSNR: whichever mode automatic selection ends on, the receiver
+    figures it reports are those obtained when that mode is imposed (each mode's own transmitter OSNR counted once)"""
+    from gnpy.topology.request import compute_path_with_disjunction
+    symbolic_ctors(ctx)
+    elems.set_sim_params()
+    margin = 0.0
+    modes = [('hi', 32e9, 200e9, 37.5e9, 40.0), ('mid', 32e9, 150e9, 37.5e9, 33.0), ('lo', 32e9, 100e9, 37.5e9, 28.0)]
+    thr = {m[0]: ctx.real(f'required_osnr_{m[0]}', lo=5, hi=30) for m in modes}
+    g, split = _symbolic_figures(ctx, '', k=3)
+
+    def run(forced):
+        path = _make_path(ctx, '', g, split, 'zero')
+
+        class _Oms:
+            pass
+        fwd, rev = _Oms(), _Oms()
+        fwd.el_list, rev.el_list = [path[1], path[2], path[3]], [path[3], path[1]]
+        fwd.reversed_oms, rev.reversed_oms = rev, fwd
+        path[2].oms = fwd
+        eq_ = _eqpt(margin)
+        trx = deepcopy(eq_['Transceiver']['Voyager'])
+        trx.mode = [dict(format=f, baud_rate=b, OSNR=thr[f], bit_rate=br, roll_off=0.15, tx_osnr=tx, min_spacing=ms, cost=1,
+                         penalties=deepcopy(PENALTIES), equalization_offset_db=0) for f, b, br, ms, tx in modes]
+        eq_['Transceiver']['stub_trx'] = trx
+        if forced is None:
+            req = _request(None, mode=False, spacing=50e9)
+        else:
+            m = [x for x in modes if x[0] == forced][0]
+            req = _request(thr[forced], mode=True, spacing=50e9, baud=m[1])
+            req.tsp_mode = req.format = forced
+            req.bit_rate, req.tx_osnr, req.min_spacing = m[2], m[4], m[3]
+        res, _, _ = compute_path_with_disjunction(None, eq_, [req], [path])
+        return req, res[0]
+    req, pth = run(None)
+    chosen = req.tsp_mode
+    info = dict(chosen=chosen, blocking=getattr(req, 'blocking_reason', None))
+    if chosen is None or not pth:
+        ctx.prove('no mode chosen: blocked with a reason', hasattr(req, 'blocking_reason'), info=info)
+        return
+    ref_req, ref_pth = run(chosen)
+    for i in range(3):
+        ctx.prove(f'receiver GSNR reported for the selected mode equals the one of that mode imposed [{i}]',
+                  approx(10 ** (pth[-1].snr_01nm[i] / 10), 10 ** (ref_pth[-1].snr_01nm[i] / 10), 1e-9), info=info)
+        ctx.prove(f'receiver OSNR reported for the selected mode equals the one of that mode imposed [{i}]',
+                  approx(10 ** (pth[-1].osnr_ase_01nm[i] / 10), 10 ** (ref_pth[-1].osnr_ase_01nm[i] / 10), 1e-9), info=info)
+
+
 def h_penalty_normalisation(ctx, npts):
     """json_io.Transceiver: penalty points sorted by boundary; a (0, 0) lower boundary is added iff all are positive"""
     from gnpy.tools.json_io import Transceiver as JsonTrx
@@ -338,6 +388,7 @@ def jobs(tier):
         for sc in ('inside', 'cd_outside'):
             js.append(dict(name=f'H13b:auto_mode:spacing{spacing * 1e-9:g}:{sc}', fn='h_auto_mode',
                            params=dict(spacing=spacing, scenario=sc), cost=60))
+    js.append(dict(name='H13b:auto_mode:own_tx_osnr_per_mode', fn='h_auto_mode_own_tx_osnr', cost=80))
     for n in (1, 2, 3):
         js.append(dict(name=f'H13c:penalty_normalisation:{n}pts', fn='h_penalty_normalisation', params=dict(npts=n)))
     return js
